@@ -69,6 +69,13 @@ class Ctx:
         self.seed = seed
         self.t0 = time.time()
         self.scratch = tempfile.mkdtemp(prefix="verif_%s_" % prop)
+        # every temporary file or directory of the harness, the compilers and
+        # the tools they start goes under the scratch directory, which is
+        # removed when the check ends (os.MkdirTemp("", ...) honours TMPDIR)
+        tmp = os.path.join(self.scratch, "tmp")
+        os.makedirs(tmp, exist_ok=True)
+        os.environ["TMPDIR"] = tmp
+        GOENV["TMPDIR"] = tmp
         # replay files of earlier runs of this property are stale
         shutil.rmtree(os.path.join(VERIF, "replays", prop), ignore_errors=True)
         self.obligations = []       # Obligation
